@@ -87,6 +87,9 @@ class World(OpsMixin, OracleMixin):
             if pool is not None:
                 v["pool"] = pool
             self.viol.append(v)
+            if clause.startswith("C10.") and self.excs:
+                # "every pending or later request proceeds exactly as if it had succeeded" covers its group bookkeeping
+                self.violate("C12.groups_after_failure", "with injected failures in the run: " + msg)
 
     def new_exc(self, site):
         # user code fails with all sorts of exception classes (TypeError, KeyError, ...): the pool must hand on exactly that object
